@@ -66,6 +66,101 @@ def c15(res):
 def c16(res):
     W.model_check(res, "MC_ClosedDup", module="MC_TransferClosed")
     worker_families(res, ["MC_SendDup", "MC_RecvDup"], ["MC_SendDup", "MC_RecvDup"], random_legs=False)
+    c16_startup(res)
+    c16_interop(res)
+
+
+def c16_startup(res):
+    """--duplicate-packets N: the bound is part of Cli.tla (rejected for N >= 255, unparsable, missing);
+    the real parser is judged on it by TLC, and the real binary must refuse to start / start."""
+    path = os.path.join(C.GEN, "dup.vectors.ndjson")
+    os.makedirs(C.GEN, exist_ok=True)
+    vals = ["0", "1", "2", "3", "254", "255", "256", "257", "300", "1000", "65535", "65536", "-1", "x"]
+    with open(path, "w") as f:
+        for v in vals:
+            f.write(json.dumps({"who": "server", "args": ["tftpd", "--duplicate-packets", v]}) + "\n")
+            f.write(json.dumps({"who": "server", "args": ["tftpd", "-s", "--duplicate-packets", v, "-r"]}) + "\n")
+        f.write(json.dumps({"who": "server", "args": ["tftpd", "--duplicate-packets"]}) + "\n")
+    probe = C.Result("C17", res.tier)
+    W.run_vectors(probe, path, "dup-cli", layer=W.CLI)
+    res.traces += probe.traces
+    res.events += probe.events
+    res.legs += probe.legs
+    for sig, desc, rep in probe.violations:
+        res.add_violation("DupBound:" + sig, "C16: " + desc, rep)
+    C.build_bins()
+    import subprocess
+    for v, should_start in (("254", True), ("255", False), ("256", False), ("300", False)):
+        port = NET.free_port()
+        pr = subprocess.Popen([C.repo_bin("tftpd"), "-i", NET.HOST, "-p", str(port), "-d", C.WORK, "--duplicate-packets", v],
+                              stdout=subprocess.PIPE, stderr=subprocess.STDOUT, text=True)
+        try:
+            pr.wait(timeout=1.0)
+            started = False
+        except subprocess.TimeoutExpired:
+            started = True
+            pr.kill()
+            pr.wait()
+        res.legs.append({"family": "dup-startup", "N": v, "started": started})
+        if started != should_start:
+            res.add_violation("DupStartup|%s" % v, "C16: tftpd --duplicate-packets %s %s" % (v, "started" if started else "refused to start"),
+                              {"kind": "startup", "N": v})
+
+
+def c16_interop(res):
+    """Real tftpc against real tftpd --duplicate-packets N: multiplicities on the wire
+    (Trace_Transfer with R = N+1) and identical files.  The proxy's hold interval is a real-time
+    guess at 'the server's burst is over'; a deviation is re-examined once with a generous one."""
+    probe = c16_interop_pass(res, 0.008)
+    if probe.violations or probe.drift:
+        res.legs.append({"family": "dup-interop", "first_pass_deviations": len(probe.violations) + sum(probe.drift.values())})
+        probe = c16_interop_pass(res, 0.06)
+    res.traces += probe.traces
+    res.events += probe.events
+    res.legs += probe.legs
+    for sig, desc, rep in probe.violations:
+        res.add_violation(sig, desc, rep)
+    for label, cnt in probe.drift.items():
+        # scenario-specific: these runs differ from C14's only in the duplicate-packets mode
+        res.add_violation("DupInterop:%s" % label, "C16: with --duplicate-packets the bundled client and server do not end with identical files / a conformant trace (%s) x%d" % (label, cnt),
+                          {"kind": "dup-interop", "label": label, "finals": probe.extra.get("bad_finals", [])})
+
+
+def c16_interop_pass(res, hold):
+    q = res.tier == "quick"
+    xfer_events, finals = [], []
+    for n in ([1, 2, 3] if q else [1, 2, 3, 6, 254]):
+        sb, srv = with_server("dup-%d" % n, shared=True, ow=True, dup=n)
+        work = os.path.join(os.path.dirname(sb.base), "client")
+        try:
+            for direction in ("download", "upload"):
+                for (nb, w) in ([(3, 1), (5, 2)] if n < 100 else [(2, 1)]):
+                    content = X.make_file(nb, 512, 100)
+                    name = "dup_%d_%d.bin" % (nb, w)
+                    if direction == "download":
+                        open(os.path.join(sb.send, name), "wb").write(content)
+                    se, ce, fin = IO.one_run(srv, sb, work, direction, name, content, 512, w, 1,
+                                             "dup%d-%s-n%d-w%d" % (n, direction, nb, w), hold=hold)
+                    xfer_events += se      # the server's worker is the one that duplicates
+                    finals.append(fin)
+                    # and once without the proxy in between: the client's endpoint really goes away
+                    # when tftpc exits, while the server may still be sending copies
+                    se, ce, fin = IO.one_run(srv, sb, work, direction, "direct_" + name, content, 512, w, 1,
+                                             "dup%d-%s-direct-n%d-w%d" % (n, direction, nb, w), via_proxy=False) \
+                        if direction == "upload" else (None, None, None)
+                    if fin:
+                        time.sleep(0.05)
+                        fin["target_exists"] = os.path.isfile(os.path.join(sb.recv, "direct_" + name))
+                        fin["same"] = fin["target_exists"] and open(os.path.join(sb.recv, "direct_" + name), "rb").read() == content
+                        finals.append(fin)
+            alive = srv.alive()
+        finally:
+            drop_server(sb, srv)
+    probe = C.Result("C16", res.tier)
+    judge_transfers(probe, xfer_events, "dup-wire")
+    judge_net_trace(probe, finals, "dup-final", module="Trace_Interop", sample_kind="final")
+    probe.extra["bad_finals"] = [f for f in finals if not f["same"]][:3]
+    return probe
 
 
 def short_prefix_vectors(v):
@@ -725,8 +820,15 @@ def c05(res):
                dict(shared=False, single=False, ro=True, ow=False), dict(shared=True, single=True, ro=True, ow=True)]
     n_per = 350 if q else 6000
     vectors = []
+    probe_v = {"b": list(NET.rq(1, b"b")), "probe": True}
+    # state-changing prologue: accepted requests at the block-size boundaries (they resize the
+    # single-port receive buffer), each followed by a probe and by ordinary requests
+    for pro in (NET.rq(1, b"b", [("blksize", 8)]), NET.rq(2, b"pro1", [("blksize", 8)]), NET.rq(1, b"a/a", [("blksize", 65464)]),
+                NET.rq(2, b"pro2", [("blksize", 65464), ("windowsize", 65535)]), NET.rq(1, b"b", [("blksize", 9), ("timeout", 255)])):
+        vectors += [{"b": list(pro), "probe": False}, dict(probe_v), {"b": list(NET.rq(1, b"a/b", [("blksize", 1024)])), "probe": False},
+                    {"b": list(NET.rq(2, b"after", [("tsize", 7)])), "probe": False}]
     for i in range(n_per):
-        vectors.append({"b": list(fuzz_datagram(rng)), "probe": False})
+        vectors.append({"b": list(fuzz_datagram(rng)[:500]), "probe": False})
         if i % 40 == 39:
             vectors.append({"b": list(NET.rq(1, b"b")), "probe": True})
     vectors.append({"b": list(NET.rq(1, b"b")), "probe": True})
